@@ -87,3 +87,39 @@ def copier_templates(ctx):
             r = pr.result
             if pr.outcome == "ok" and isinstance(r, TNode) and getattr(r, "rebuilt_from", None) is not None:
                 yield kind, pr, r
+
+
+def transf_entry_paths(ctx):
+    """Abstract run of the summarised entry point expr_transf(nsp, node) itself: the summary used by
+    engine T (`X` = the node rewritten by the expression driver in that namespace) is valid only if
+    every path hands exactly (nsp, node) to the driver."""
+    from ..interp import function_paths
+    from ..vals import Cst
+
+    prog = ctx.prog
+    mi = prog.modules.get("oneliner.expr_transform")
+    fi = mi.functions.get("expr_transf") if mi else None
+    if fi is None:
+        raise AnalysisError("anchor oneliner.expr_transform:expr_transf vanished")
+    tr = _transformer(prog)
+    root, leaves, glob = namespace_classes(prog)
+    drivers = [m for n, m in tr.methods.items() if n not in ("__init__", "get_pending")]
+
+    def setup(it):
+        for m in drivers:
+            def summ(f, args, kwargs, node, fr, _m=m):
+                loc = it.bind_args(f, args, kwargs, node)
+                vals = list(loc.values())
+                self_obj = vals[0]
+                t = TNode("$Cvt", {"nsp": self_obj.attrs.get("nsp") if isinstance(self_obj, Obj) else None, "node": vals[1] if len(vals) > 1 else None, "method": Cst(_m.name)}, it.site_of(node, fr))
+                return t
+            it.summaries[m.fq] = summ
+
+    def mk(it):
+        nsp_cls = it.decide("ctx:nsp", leaves)
+        nsp = Obj(nsp_cls, "nsp")
+        nsp.exact = True
+        node = UNode(asdl.EXPR_KINDS)
+        return [nsp, node], {}, None
+
+    return fi, list(function_paths(prog, fi, mk, setup=setup))
